@@ -488,3 +488,43 @@ def encoder_table_accounting(r, F):
             for bi, t in f.calls_to(T + '::update_size'):
                 e = f.expr_of_op(t['a'][1])
                 r.check(core.contains_call(e, 'hpack::header::Header::len'), 'enc-table|insert-len|%s' % fname.split('::')[-1], f.loc(bi), 'update_size(%s)' % core.show(e)[:60])
+
+
+def entry_size(r, F):
+    """RFC 7541 §4.1: the size of an entry is 32 + len(name) + len(value); the pseudo names have fixed lengths"""
+    f = r.fn('hpack::header::Header::len')
+    if not f:
+        return
+    want = {'Authority': {32, 10}, 'Method': {32, 7}, 'Scheme': {32, 7}, 'Path': {32, 5}, 'Protocol': {32, 9}, 'Status': {32, 7, 3}}
+    try:
+        paths = core.decision_paths(F, f, max_paths=500)
+    except core.Cap as e:
+        r.bad('entry-size|paths', f.file, str(e))
+        return
+    seen = set()
+    for conds, blocks in paths:
+        labs = [l for sw, l, s in conds if sw.kind == 'variant' and isinstance(l, frozenset) and len(l) == 1]
+        if not labs:
+            continue
+        v = list(labs[0])[0]
+        consts = set()
+        for b in blocks:
+            for st in f.blocks[b]['s']:
+                for c in core.consts_in(f.expr_of_rvalue(st[1])):
+                    if isinstance(c[1], int):
+                        consts.add(c[1])
+        if v in want:
+            seen.add(v)
+            total = sum(consts)
+            r.check(sum(want[v]) == total and 32 in consts, 'entry-size|' + v, f.file,
+                    'Header::len(:%s) adds %s (= %d), RFC 7541 §4.1: 32 + %d-octet name%s' % (v.lower(), sorted(consts), total, sum(want[v]) - 32 - (3 if v == 'Status' else 0), ' + 3-octet value' if v == 'Status' else ''))
+        elif v == 'Field':
+            seen.add(v)
+            calls = [t['fn'] for b in blocks for t in [f.blocks[b]['t']] if t['k'] == 'call']
+            r.check(any('len' in c for c in calls), 'entry-size|Field', f.file, 'Header::len(field) = 32 + name.len() + value.len() (helper call)')
+    r.check(seen >= set(want) | {'Field'}, 'entry-size|variants', f.file, 'all seven Header variants sized: %s' % sorted(seen))
+    es = F.fn('hpack::encoder::encode_str')
+    if es:
+        ob = [t for bi, t in es.calls_to('hpack::encoder::encode_int_one_byte')]
+        ok = len(ob) == 1 and strip(es.expr_of_op(ob[0]['a'][1]))[:2] == ('const', 7)
+        r.check(ok, 'string-length|one-byte-test', es.file, 'encode_str decides the one-octet length form with encode_int_one_byte(len, 7) (value < 2^7 - 1), the same test encode_int applies')
